@@ -213,10 +213,10 @@ def native_run(binp, tape, timeout=10.0):
         r = subprocess.run([binp, "-test.run", "^TestVerifReplay$", "-test.timeout", "0"], env=env, capture_output=True,
                            timeout=timeout, cwd=os.path.dirname(binp))
     except subprocess.TimeoutExpired as e:
-        return {"status": "hang", "msg": "still running after %.0fs" % timeout, "obs": [], "out": (e.stdout or b"").decode("latin-1")[-2000:]}
+        return {"status": "hang", "msg": "still running after %.0fs" % timeout, "obs": [], "out": (e.stdout or b"").decode("latin-1")[-2000:], "race": False}
     out = r.stdout.decode("utf-8", "surrogateescape") + r.stderr.decode("utf-8", "surrogateescape")
     obs = [(to_bytes(go_unquote(a)), to_bytes(go_unquote(b))) for a, b in OBS_RE.findall(out)]
-    res = {"obs": obs, "out": out[-3000:], "msg": ""}
+    res = {"obs": obs, "out": out[-3000:], "msg": "", "race": "WARNING: DATA RACE" in out}
     m = FAIL_RE.search(out)
     if r.returncode == 41 and m:
         res["status"] = "assert"
@@ -483,7 +483,7 @@ def run_check(pid, tier):
                         rb = native_binary(j.pkg, ovdirs[j.pkg], tmp, race=True)
                         for _ in range(20):
                             nr = native_run(rb, tape, timeout=60)
-                            if "DATA RACE" in nr["out"]:
+                            if nr.get("race"):
                                 confirmed = True
                                 break
                     elif v["kind"] in ("steps", "deadlock"):
